@@ -262,7 +262,9 @@ def check(run):
         l2 = impl.potable_cli(edited, args=["--list-items"], want_output=False)
         items1 = sorted(l1["stdout"].split("\n"))
         items2 = sorted(l2["stdout"].split("\n"))
-        expected = sorted(["%s:%s=%s" % (s, norm(k), v) for s, kvs in spec[1].items() if s != "Variables" for k, v in kvs] + [""])
+        # ([Variables] entries are items too: they are addressed as Variables:NAME by --override-item / --add-item / --item-value, and are what a user looks for
+        #  in the listing in order to override them)
+        expected = sorted(["%s:%s=%s" % (s, norm(k), v) for s, kvs in spec[1].items() for k, v in kvs] + [""])
         if l1["rc"] != 0 or items1 != items2:
             nb += 1
             if nb <= 3:
@@ -271,15 +273,52 @@ def check(run):
             missing = [x for x in expected if x not in items1]
             extra = [x for x in items1 if x not in expected]
             dup = [x for x, n in collections.Counter(items1).items() if n > 1 and x]
-            key = "list-items-omits-table-form" if any(m.startswith("Table-Form") for m in missing) and not extra and not dup else ("list-items-variables-leak" if "Variables" in spec[1] else "list-items")
+            key = "list-items-omits-table-form" if any(m.startswith("Table-Form") for m in missing) and not extra and not dup else (
+                "list-items-omits-variables" if missing and all(m.startswith("Variables:") for m in missing) and not extra and not dup else ("list-items-variables-leak" if "Variables" in spec[1] else "list-items"))
             run.fail(key, "--list-items does not report every item exactly once: missing %s, unexpected %s, repeated %s" % (missing[:5], extra[:5], dup[:5]), dict(case=desc))
         else:
             # --item-value for one random item
-            s, kvs = rng.choice([(s, kvs) for s, kvs in spec[1].items() if s != "Variables" and kvs])
+            s, kvs = rng.choice([(s, kvs) for s, kvs in spec[1].items() if kvs])
             k, v = rng.choice(kvs)
             q = impl.potable_cli(text, args=args + ["--item-value", "%s:%s" % (s, k)], want_output=False)
             if q["rc"] != 0 or q["stdout"].rstrip("\n") != v:
                 run.fail("override-key-whitespace" if k != norm(k) else "item-value", "--item-value %s:%s gives %r (exit %s), the edited file holds %r" % (s, k, q["stdout"][:80], q["rc"], v), dict(case=desc))
+    cli_edge_scenarios(run)
+
+
+def cli_edge_scenarios(run):
+    """values and item specifications as a user types them on a command line (found through a seeding agent's side remarks)"""
+    base = "[Variables]\nA : 1000.0\n\n[Tabulation]\ntarget : LAMMPS\ncutoff : 4.0\nnr : 9\n\n[Pair]\nSi-O : as.buck ${A} 0.3 1.0\n\n"
+
+    def outcome(r):
+        if r["rc"] == 0:
+            return "ok"
+        return "config_error" if "configuration error" in r["stderr"] else "internal: " + r["stderr"].strip().split("\n")[-1][:120]
+    # (a) a value holding a '$' that does not open a placeholder: by hand a configuration error - the same through the options
+    for opt, item in (("-e", "Pair:Si-O=as.buck $A 0.2 1.0"), ("-a", "Pair:O-O=as.buck $A 0.2 1.0")):
+        hand = base.replace("as.buck ${A} 0.3 1.0", "as.buck $A 0.2 1.0") if opt == "-e" else base.replace("as.buck ${A} 0.3 1.0\n", "as.buck ${A} 0.3 1.0\nO-O : as.buck $A 0.2 1.0\n")
+        want, got = outcome(impl.potable_cli(hand)), outcome(impl.potable_cli(base, args=[opt, item]))
+        run.case(key=("cli-edge", opt, item), kind="cli-edge/dollar")
+        if got != want:
+            run.fail("override-outcome", "potable %s %r: %s; the file edited by hand: %s" % (opt, item, got, want), dict(potable_file=base, command_line=[opt, item], hand_edited_file=hand))
+    # (b) blanks around the value, as in 'KEY = VALUE': the INI reader strips them from a value written in the file
+    for opt, item, hand in (("-e", "Tabulation:target = GULP", base.replace("target : LAMMPS", "target :   GULP  ")),
+                            ("-a", "Pair:O-O =  as.buck 5.0 0.3 0.0 ", base.replace("as.buck ${A} 0.3 1.0\n", "as.buck ${A} 0.3 1.0\nO-O =  as.buck 5.0 0.3 0.0 \n"))):
+        r1, r2 = impl.potable_cli(base, args=[opt, item]), impl.potable_cli(hand)
+        run.case(key=("cli-edge", opt, item), kind="cli-edge/value-blanks")
+        if outcome(r1) != outcome(r2) or r1["output"] != r2["output"]:
+            run.fail("override-output-differs-from-edited-file", "potable %s %r: %s, %s bytes; the hand-edited file: %s, %s bytes" % (opt, item, outcome(r1), len(r1["output"] or ""), outcome(r2), len(r2["output"] or "")),
+                     dict(potable_file=base, command_line=[opt, item], hand_edited_file=hand))
+        q = impl.potable_cli(base, args=[opt, item, "--item-value", item.split("=")[0].strip()], want_output=False)
+        wantv = item.split("=", 1)[1].strip()
+        if q["rc"] != 0 or q["stdout"].rstrip("\n") != wantv:
+            run.fail("item-value", "--item-value after %s %r gives %r, the edited file holds %r" % (opt, item, q["stdout"].rstrip("\n"), wantv), dict(potable_file=base, command_line=[opt, item]))
+    # (c) asking for the value of an item that does not exist: a configuration error like overriding or removing one, not a traceback
+    for key in ("Pair:Zz-Zz", "Missing:x", "Variables:B"):
+        r = impl.potable_cli(base, args=["--item-value", key], want_output=False)
+        run.case(key=("cli-edge", "item-value", key), kind="cli-edge/item-value-missing")
+        if outcome(r) != "config_error":
+            run.fail("item-value", "--item-value %s (no such item): %s, expected a configuration error" % (key, outcome(r)), dict(potable_file=base, command_line=["--item-value", key]))
 
 
 def replay(run, payload):
